@@ -1104,6 +1104,21 @@ def _asfloat(x):
     return float(x) if isinstance(x, int) else x
 
 
+def isclose(a, b, rtol=1e-05, atol=1e-08):
+    def f(x, y):
+        if hasattr(x, '__logaddexp__') and isinstance(y, (int, float)) and y == 0:
+            # a log-value close to 0: its weight lies in [e^-atol, e^atol]
+            from .logp import expc
+            if getattr(x, 'zero', False):
+                return False
+            return core.b_and(SB(x.p >= expc(-atol)), SB(x.p <= expc(atol)))
+        if isinstance(x, (int, float)) and isinstance(y, (int, float)):
+            return builtins.abs(x - y) <= atol + rtol * builtins.abs(y)
+        d = core.sabs(x - y)
+        return d <= atol + rtol * core.sabs(y)
+    return _ew2(f, a, b)
+
+
 def _isfinite(x):
     if isinstance(x, float):
         return x == x and builtins.abs(x) != INF
